@@ -229,4 +229,67 @@ theorem solve_eq_of_factorisation (n : Nat) (A B C : Mat) (b x y : Vec)
   rw [mulVec_mul]
   exact mulVec_congr (fun _ _ => rfl) (fun k hk => hx k hk)
 
+theorem chol_diag_pos (r : Rat → Rat) (n : Nat) (A : Mat) (hr : SqrtSpec r n A)
+    (h0 : potrfInfo false r n A = 0) {j : Nat} (hj : j < n) :
+    r (cholS r n A j j) * r (cholS r n A j j) = cholS r n A j j ∧ 0 < r (cholS r n A j j) := by
+  have hp := infoOf_zero h0 j hj
+  simp only [Bool.false_eq_true, if_false, not_le] at hp
+  exact hr j hj hp
+
+/-- `L Lᵀ = A` on the whole square for symmetric `A` -/
+theorem chol_full (r : Rat → Rat) (n : Nat) (A : Mat) (hr : SqrtSpec r n A)
+    (h0 : potrfInfo false r n A = 0) (hsym : ∀ i j, i < n → j < n → A i j = A j i) :
+    ∀ i k, i < n → k < n → mul n (chol r n A) (transpose (chol r n A)) i k = A i k := by
+  intro i k hi hk
+  unfold mul transpose
+  by_cases hki : k ≤ i
+  · have hs := chol_diag_pos r n A hr h0 hk
+    exact chol_column_identity r n A hi hki ⟨hs.1, ne_of_gt hs.2⟩
+  · have hs := chol_diag_pos r n A hr h0 hi
+    have := chol_column_identity r n A hk (by omega : i ≤ k) ⟨hs.1, ne_of_gt hs.2⟩
+    rw [hsym i k hi hk, ← this]
+    apply sum_congr; intro c _; rw [Rat.mul_comm]
+
+/-- **`solve(A, b, symm_pos_def(), side)`** (= `cholesky_decomposition::solve`: `potrf`, `trsv<lower>`,
+`trsv<upper>` on `Lᵀ`): for every size, every symmetric `A` on which `potrf` succeeds (returns 0)
+the returned vector satisfies `A x = b` exactly. -/
+theorem solve_spd_correct (r : Rat → Rat) (n : Nat) (A : Mat) (b : Vec) (hr : SqrtSpec r n A)
+    (h0 : potrfInfo false r n A = 0) (hsym : ∀ i j, i < n → j < n → A i j = A j i) :
+    ∀ i, i < n → mulVec n A (fun k => vget (solveSpdArr r n A b) k) i = b i := by
+  set Lm : Mat := chol r n A with hLm
+  have hdiag : ∀ j, j < n → Lm j j ≠ 0 := by
+    intro j hj
+    rw [hLm, chol_entry r n A hj hj, if_neg (by omega), if_pos rfl]
+    exact ne_of_gt (chol_diag_pos r n A hr h0 hj).2
+  have hreg1 : triSingular ⟨false, false⟩ n Lm = false :=
+    (regular_iff_not_singular _ n Lm).mp (fun _ j hj => hdiag j hj)
+  have hreg2 : triSingular ⟨true, false⟩ n (transpose Lm) = false :=
+    (regular_iff_not_singular _ n (transpose Lm)).mp (fun _ j hj => hdiag j hj)
+  set y : Vec := trsv ⟨false, false⟩ true n Lm b with hy
+  set x : Vec := trsv ⟨true, false⟩ true n (transpose Lm) y with hx
+  have hxeq : (fun k => vget (solveSpdArr r n A b) k) = x := rfl
+  rw [hxeq]
+  apply solve_eq_of_factorisation n A Lm (transpose Lm) b x y
+  · exact chol_full r n A hr h0 hsym
+  · intro i hi
+    rw [← trsv_correct_left ⟨false, false⟩ n Lm b hreg1 i hi]
+    apply mulVec_congr _ (fun _ _ => rfl)
+    intro k hk
+    unfold triPart
+    by_cases hik : i = k
+    · subst hik; simp
+    · by_cases hlt : k < i
+      · simp [hik, hlt]
+      · simp [hik, hlt]; exact chol_upper_zero r n A hi hk (by omega)
+  · intro i hi
+    rw [← trsv_correct_left ⟨true, false⟩ n (transpose Lm) y hreg2 i hi]
+    apply mulVec_congr _ (fun _ _ => rfl)
+    intro k hk
+    unfold triPart transpose
+    by_cases hik : i = k
+    · subst hik; simp
+    · by_cases hlt : i < k
+      · simp [hik, hlt]
+      · simp [hik, hlt]; exact chol_upper_zero r n A hk hi (by omega)
+
 end SharkVerif.C02
